@@ -166,6 +166,11 @@ type SkModel struct {
 	// Approx: the bins are no longer predicted by the reference (the content
 	// went through ChangeMapping, which C17 judges); values and weights still are.
 	Approx bool
+	// Off: a unit change pushed an absorbed value to the edge of (or outside)
+	// the target mapping's indexable range, which no property claims (C17:
+	// "values well inside both mappings' ranges after scaling"); the slot is no
+	// longer judged.
+	Off bool
 }
 
 func NewSkModel(k Kind, spec MapSpec, mp mapping.IndexMapping) *SkModel {
@@ -198,6 +203,9 @@ func (m *SkModel) MergeFrom(o *SkModel) {
 	if src.Approx {
 		m.Approx = true
 	}
+	if src.Off {
+		m.Off = true
+	}
 }
 
 func (m *SkModel) CopyFor(k Kind) *SkModel {
@@ -207,6 +215,7 @@ func (m *SkModel) CopyFor(k Kind) *SkModel {
 	c.Zero = m.Zero
 	c.Ent = append([]Entry{}, m.Ent...)
 	c.Approx = m.Approx
+	c.Off = m.Off
 	return c
 }
 
@@ -216,6 +225,7 @@ func (m *SkModel) Clear() {
 	m.Zero = 0
 	m.Ent = nil
 	m.Approx = false
+	m.Off = false
 }
 
 func (m *SkModel) Scale(f float64) {
@@ -250,6 +260,9 @@ func (m *SkModel) dump(d *mc.Dumper) {
 	d.F64(m.Zero)
 	if m.Approx {
 		d.Tag('~')
+	}
+	if m.Off {
+		d.Tag('!')
 	}
 	if m.Pos.Folded || m.Neg.Folded {
 		d.Tag('f')
